@@ -278,7 +278,7 @@ class Ctx:
         for v in self.violations:
             hit = None
             for k in opened:
-                if k["fingerprint"] == v["fingerprint"]:
+                if v["fingerprint"] == k.get("fingerprint") or v["fingerprint"] in k.get("fingerprints", []):
                     hit = k
             if hit:
                 known.setdefault(hit["id"], []).append(v)
